@@ -1,7 +1,9 @@
 pub mod c01;
+pub mod c02;
+pub mod c06;
 
 use crate::engine::Prop;
 
 pub fn all() -> Vec<Box<dyn Prop>> {
-    vec![Box::new(c01::C01)]
+    vec![Box::new(c01::C01), Box::new(c02::C02), Box::new(c06::C06)]
 }
